@@ -94,8 +94,9 @@ pub fn into_bytes_incircuit(
         BigUint(big) => {
             let mut bytes = std_lib.biguint().to_le_bytes(layouter, big)?;
 
-            bytes[n..]
+            bytes
                 .iter()
+                .skip(n)
                 .try_for_each(|b| std_lib.assert_equal_to_fixed(layouter, b, 0u8))?;
 
             let zero = std_lib.assign_fixed(layouter, 0u8)?;
